@@ -241,6 +241,11 @@ def run(tier):
         res.add(v)
     bound = 2
     st = explore.explore(Race("line"), race_params(tier), bound)
+    rst = explore.explore(fabric.Restart(PID, "line"), fabric.restart_params(tier), 2)
+    st.merge(rst)
+    restart_cov = {"executions": rst.executions, "distinct_outcomes": len(rst.outcomes), "verdicts": rst.verdicts,
+                   "what": "1-4 publications (priority 1 / default) made while the fabric runs, then stop(), optional publications while "
+                           "stopped, start(); every schedule of the caller against the delivery threads with <= 1-2 preemptions"}
     ix = None
     if tier != "quick":
         ix = explore.extra(st, explore.hybrid(Race("instr")), [dict(p, bound=2.015) for p in race_params(tier)[:6] if len(p["threads"]) == 2],
@@ -249,6 +254,7 @@ def run(tier):
     if ix:
         res.coverage["instruction_extra"] = ix
     cov = res.coverage
+    cov["restart_part"] = restart_cov
     cov["race_part"] = {"executions": st.executions, "scheduling_steps": st.steps, "distinct_outcomes": len(st.outcomes),
                         "verdicts": st.verdicts, "bound": bound}
     cov["sequential_part"] = {k: b[k] for k in ("states", "transitions", "verdicts", "depth")}
@@ -278,7 +284,7 @@ def replay(w):
         for key, what in judge(path, ex):
             res.add(Violation(key, what, w))
         return res
-    ex, v = explore.replay(Race("line"), w)
+    ex, v = explore.replay(fabric.Restart(PID, "line") if str(w.get("harness", "")).endswith("-restart") else Race("line"), w)
     print(ex.verdict, ex.obs)
     for key, what in v:
         res.add(Violation(key, what, w))
